@@ -107,6 +107,7 @@ def overlap_case(draw):
             "f": 1.0 if fk == "one" else draw(st.sampled_from([0.5, 0.34, 0.75, 0.2])),
             "bonds": bonds, "rcharges": [round(repl.R_TAG0 + 0.01 * j, 6) for j in range(len(rp["pos"]))],
             "rgroups": [4] * len(rp["pos"]), "by_copy": by_copy, "prime": draw(st.booleans()),
+            "call": draw(st.sampled_from(["keyword", "keyword", "positional"])),
             "meta": {"kind": kind, "repl_kind": rp["kind"]}}
 
 
@@ -207,7 +208,7 @@ def oracle(case, stats):
     try:
         new, k = mf.replace(s, sp, rp, atol, case["hints"], case["seeds"], replace_fraction=f,
                             replace_all=case["replace_all"], return_num_matches=True,
-                            ignore_atoms_should_not_be_deleted_twice=case["ignore"])
+                            ignore_atoms_should_not_be_deleted_twice=case["ignore"], form=case.get("call", "keyword"))
     except AtomsShouldNotBeDeletedTwice as e:
         raised = e
     except Exception as e:
@@ -292,6 +293,7 @@ def oracle(case, stats):
     stats.count("repl:" + case["meta"]["repl_kind"])
     stats.count("replace_all:%s" % case["replace_all"])
     stats.count("ignore:%s" % case["ignore"])
+    stats.count("call:" + case.get("call", "keyword"))
     stats.count("f:%s" % ("1" if f == 1.0 else "<1"))
     stats.count("outcome:%s" % ("raised" if raised is not None else "returned"))
     cls = "no-overlap" if not overlapping else "overlap-only-retained" if not some_conflict else \
